@@ -462,16 +462,46 @@ def wl_stores(ctx, rng, i):
         def snap_fs():
             return sorted(os.path.join(dp, f)[len(tmp):] + ":%d" % os.path.getsize(os.path.join(dp, f)) for dp, dn, fn in os.walk(tmp) for f in fn + dn)
         unserial = stix2.v21.Identity(id="identity--" + u, name="n", x_inf=float(rng.choice(["inf", "-inf", "nan"])), allow_custom=True)
+        # several objects in one add (a list, a bundle dictionary, bundle text), a later one of which is refused: nothing of the lot is kept
+        fresh = [dict(good, id="x-stixmon-kept--" + u[:-2] + "%02x" % k, name="fresh %d" % k) for k in (0xa0, 0xa1)]
+        fresh_obj = stix2.v21.Identity(id="identity--" + u[:-2] + "a2", name="fresh object")
+        refused = rng.choice([{"type": "identity", "spec_version": "2.1", "id": "identity--" + u, "name": 5, "bogus": 1}, {"type": "identity", "id": "not an id", "name": "n"},
+                              {"type": "x-stixmon-kept"}, {}, {"id": "x-stixmon-kept--" + u}, dict(good, id="../../x-escape-%s" % u[-4:]),
+                              dict(good, type="../x-escape", id="x-stixmon-kept--" + u[:-2] + "a3"), "{not json", 5])
+        pos = rng.choice(["last", "middle"])
+        members = fresh + [fresh_obj]
+        lot = members + [refused] if pos == "last" else members[:1] + [refused] + members[1:]
+        lot_json = [json.loads(x.serialize()) if hasattr(x, "serialize") else x for x in lot]
+        batches = [("list", lot), ("bundle dictionary", {"type": "bundle", "id": "bundle--" + u, "objects": lot_json})]
+        if all(isinstance(x, dict) for x in lot_json):
+            batches.append(("bundle text", json.dumps({"type": "bundle", "id": "bundle--" + u, "objects": lot_json})))
+        ctx.see("refused members of a lot", (type(refused).__name__ + ":" + ",".join(sorted(refused))) if isinstance(refused, dict) else type(refused).__name__)
         for label, store, snapf, item in [("MemoryStore", ms, snap_mem, b) for b in bads] + [("FileSystemStore", fs, snap_fs, b) for b in bads] + \
-                [("FileSystemStore", fs, snap_fs, unserial), ("FileSystemStore", fs, snap_fs, stix2.v21.Identity(id="identity--" + u[:-2] + "ee", name="unencodable \ud800 name"))]:
+                [("FileSystemStore", fs, snap_fs, unserial), ("FileSystemStore", fs, snap_fs, stix2.v21.Identity(id="identity--" + u[:-2] + "ee", name="unencodable \ud800 name"))] + \
+                [("MemoryStore", ms, snap_mem, ("lot", b)) for b in batches if b[0] != "bundle text"] + [("FileSystemStore", fs, snap_fs, ("lot", b)) for b in batches]:
             before = snapf()
+            outside_before = sorted(os.listdir(os.path.dirname(tmp)))
+            islot = isinstance(item, tuple) and item[0] == "lot"
             try:
                 with warnings.catch_warnings():
                     warnings.simplefilter("ignore")
-                    store.add(item if not isinstance(item, dict) else dict(item))
+                    if islot:
+                        store.add(json.loads(json.dumps(item[1][1], default=lambda x: json.loads(x.serialize()))) if item[1][0] != "list" else list(item[1][1]))
+                    else:
+                        store.add(item if not isinstance(item, dict) else dict(item))
+                if islot and label == "FileSystemStore" and isinstance(refused, dict) and any(".." in str(refused.get(k, "")) for k in ("id", "type")):
+                    ctx.ev()
+                    ctx.violation("store-wrote-outside-its-directory", "%s accepted an object whose %s leaves the store directory" % (label, "id/type"),
+                                  {"store": label, "member": refused, "directory_listing_outside": sorted(set(os.listdir(os.path.dirname(tmp))) - set(outside_before))[:5]})
                 continue            # accepted: not this clause's business
-            except Exception:
+            except family():
                 pass
+            except Exception as e:
+                from stix2.datastore import DataSourceError
+                if not isinstance(e, DataSourceError):     # (the stores' own documented error, e.g. for a version which is there already)
+                    ctx.ev()
+                    ctx.violation("escape:%s@store-add" % type(e).__name__, "%s.add(%s) let %s escape: %s" % (label, "a lot with a refused member" if islot else "a refused object", type(e).__name__, str(e)[:120]),
+                                  {"store": label, "item": repr(item)[:400], "exception": repr(e)[:300]})
             ctx.ev()
             ctx.count("store_unchanged_checks")
             ctx.count("failed_adds_judged")
@@ -670,7 +700,63 @@ def wl_targeted(ctx, rng, i):
     ctx.count("targeted")
 
 
+def wl_toplevel(ctx, rng, i):
+    """An object extended by several toplevel-property extensions at once, some registered and some not, in every order: a value
+    which breaks the definition of a registered one is refused wherever that extension stands among the entries."""
+    import stix2
+    from ..gen import custom as gcustom
+    gcustom.ensure_registered()
+    g = ObjGen(rng, "2.1", hostile=False, ts_max_digits=6)
+    which = ["a", "ua", "au", "uba", "ub", "bu", "ab", "uab"][i % 8]
+    o = gcustom.toplevel21(g, which)
+    o.pop("revoked", None)
+    bad = []
+    if "a" in which:
+        bad += [("rank", rng.choice(["junk", [], {"a": 1}, 1.5, "1.5"])), ("seen_at", rng.choice(["yesterday", 5, "2020-13-01T00:00:00Z"])), ("aliases", rng.choice([5, [5, {}], [[]], {"a": {}}]))]
+    if "b" in which:
+        bad += [("grade", rng.choice([11, -1, "high", 10 ** 30])), ("graded_by", rng.choice([{"a": 1}, ["x", "y"]]) if False else None)]
+    bad = [b for b in bad if b[1] is not None]
+    name, val = rng.choice(bad)
+    oo = dict(o)
+    oo[name] = val
+    w = {"extensions_in_order": list(oo["extensions"]), "property": name, "value": repr(val), "input": oo}
+    for rname, fn in (("parse/strict", lambda: stix2.parse(json.dumps(oo))), ("parse/lenient", lambda: stix2.parse(json.dumps(oo), allow_custom=True)),
+                      ("constructor/strict", lambda: stix2.v21.Identity(**json.loads(json.dumps(oo)))),
+                      ("bundle member", lambda: stix2.parse({"type": "bundle", "id": "bundle--" + oo["id"].split("--")[1], "objects": [json.loads(json.dumps(oo))]}).objects[0])):
+        ctx.ev()
+        ctx.count("toplevel_extension_faults")
+        ctx.nontrivial("toplevel", which, name, rname)
+        try:
+            with warnings.catch_warnings():
+                warnings.simplefilter("ignore")
+                obj = fn()
+        except family():
+            ctx.count("refused")
+            continue
+        except Exception as e:
+            ctx.violation("escape:%s@%s" % (type(e).__name__, where_raised(e)), "%s of an object with toplevel extensions let %s escape" % (rname, type(e).__name__), dict(w, route=rname, exception=repr(e)[:300]))
+            continue
+        try:
+            out = json.loads(obj.serialize())
+        except Exception:
+            out = None
+        # accepted: then the value must have been normalised into one the definition admits
+        # ([] means "not given" to every constructor: the property is then simply absent)
+        ok = out is not None and (val == [] and name not in out) or out is not None and name in out and ((name in ("rank", "grade") and isinstance(out[name], int) and not isinstance(out[name], bool) and (name != "grade" or 0 <= out[name] <= 10))
+                                                  or (name == "aliases" and isinstance(out[name], list) and out[name] and all(isinstance(x, str) for x in out[name]))
+                                                  or (name == "seen_at" and isinstance(out[name], str) and prime_ts(out[name])))
+        if not ok:
+            ctx.violation("returned-object-not-validated:toplevel-extension-property", "%s returned an object whose %s = %r breaks the registered extension's definition (extensions in the order %s)" % (
+                rname, name, val, [k[-4:] for k in oo["extensions"]]), dict(w, route=rname, output=out))
+
+
+def prime_ts(text):
+    from ..gen import prime
+    return bool(prime.TS_RE.match(text))
+
+
 WORKLOADS = [
+    Workload("toplevel-extensions", wl_toplevel, quick=96, thorough=4800),
     Workload("faults", wl_faults, quick=lambda: len(BASES), thorough=lambda: len(BASES) * 6, exhaustive=True),
     Workload("junk", wl_junk, quick=120, thorough=20000),
     Workload("targeted", wl_targeted, quick=lambda: len(TARGETED), thorough=lambda: len(TARGETED), exhaustive=True),
